@@ -199,8 +199,22 @@ func workC10Abs(w *run.W) {
 				parKind = ds.kindOf(par)
 				// inside a MACRO definition the directives are expanded elsewhere: abstracting there is still legal
 			}
+			hoist := false
 			if !ref.Admits(parKind, "PASTE") {
-				continue
+				// PASTE written under a directive that does not admit it attaches higher up, while the pasted directives
+				// still land in the (implicit, still open) context: legal when the run ends the parent's children and no
+				// explicit context is crossed
+				if par < 0 || ds.syms[ds.dirSym[par]].Explicit {
+					continue
+				}
+				gk := ""
+				if g := ds.parents[par]; g >= 0 {
+					gk = ds.kindOf(g)
+				}
+				if !ref.Admits(gk, "PASTE") {
+					continue
+				}
+				hoist = true
 			}
 			kids := ds.children(par)
 			for a := 0; a < len(kids); a++ {
@@ -209,7 +223,7 @@ func workC10Abs(w *run.W) {
 						continue
 					}
 					sibs := kids[a : b+1]
-					if !ds.contiguous(sibs) {
+					if !ds.contiguous(sibs) || (hoist && b != len(kids)-1) {
 						continue
 					}
 					ok := true
